@@ -123,7 +123,26 @@ func (purityStream) Generate(rng *rand.Rand, tier string, emit func(Case)) {
 			seq = append(seq, map[string]any{"devs": devs, "uid": []int{0, 1000, 2000}[rng.Intn(3)], "gid": []int{0, 1000, 2000}[rng.Intn(3)], "process": rng.Intn(5) > 0})
 		}
 		sj, _ := json.Marshal(sp)
-		emit(Case{"op": "image", "specjson": string(sj), "seq": seq})
+		cs := Case{"op": "image", "specjson": string(sj), "seq": seq}
+		if i%2 == 0 {
+			// a second Spec file of another kind with Spec-level edits of its own: requests that span both files
+			// must come out the same every time (and the same as on a fresh cache)
+			sp2 := &specs.Spec{Version: specs.CurrentVersion, Kind: "other.com/class",
+				ContainerEdits: specs.ContainerEdits{Env: []string{"SPEC=2", "OTHER=1"}, Hooks: []*specs.Hook{{HookName: "prestart", Path: "/bin/other"}}},
+				Devices:        []specs.Device{{Name: "o0", ContainerEdits: specs.ContainerEdits{Env: []string{"O0=1"}}}}}
+			if sp.ContainerEdits.Env == nil {
+				sp.ContainerEdits.Env = []string{"SPEC=1"}
+				sj, _ = json.Marshal(sp)
+				cs["specjson"] = string(sj)
+			}
+			s2, _ := json.Marshal(sp2)
+			cs["spec2json"] = string(s2)
+			for _, st := range seq {
+				m := st.(map[string]any)
+				m["devs"] = append(m["devs"].([]any), "other.com/class=o0")
+			}
+		}
+		emit(cs)
 	}
 }
 
@@ -205,6 +224,9 @@ func (purityStream) Execute(c Case) {
 			}
 		}()
 		_ = os.WriteFile(filepath.Join(specDir, "s.json"), []byte(c["specjson"].(string)), 0o644)
+		if s2, ok := c["spec2json"].(string); ok {
+			_ = os.WriteFile(filepath.Join(specDir, "t.json"), []byte(s2), 0o644)
+		}
 		cache, _ := cdi.NewCache(cdi.WithSpecDirs(specDir), cdi.WithAutoRefresh(false))
 		before := cacheSpecImage(cache)
 		seq, _ := c["seq"].([]any)
@@ -238,6 +260,27 @@ func (purityStream) Execute(c Case) {
 		obs["cacheunchanged"] = cacheSpecImage(cache) == before
 		if ss := cache.GetVendorSpecs("vendor.com"); len(ss) == 1 {
 			obs["writeback"] = cache.WriteSpec(ss[0].Spec, "writeback.json") == nil
+		}
+		// the same request repeated on the same cache gives the same OCI spec every time
+		if len(seq) > 0 {
+			m, _ := seq[len(seq)-1].(map[string]any)
+			var devs []string
+			for _, d := range m["devs"].([]any) {
+				devs = append(devs, d.(string))
+			}
+			first := ""
+			for k := 0; k < 24 && obs["repeatable"] == true; k++ {
+				o := &oci.Spec{Version: "1.0.2"}
+				if _, err := cache.InjectDevices(o, devs...); err != nil {
+					break
+				}
+				if img := jsonImage(o); first == "" {
+					first = img
+				} else if img != first {
+					obs["repeatable"] = false
+					obs["diverged"] = "the same request gave two different OCI specs: " + first + " / " + img
+				}
+			}
 		}
 		return
 	}
